@@ -123,7 +123,9 @@ def check_generate(ctx, cfg, key, boxed):
     fe = [c for c in an.calls if c.fn in ("core::iter::Iterator::for_each", "core::iter::Iterator::fold", "core::iter::Iterator::try_for_each")]
     ok = len(fe) == 1 and fe[0].fn == "core::iter::Iterator::for_each"
     det = "expected exactly one for_each over the destination; found %s" % [c.fn for c in fe]
-    if ok:
+    if not fe:
+        ok, det = generate_loop_form(an, owners, N)
+    elif ok:
         pipe, cv = fe[0].args[0], fe[0].args[1]
         shape = isinstance(pipe, tuple) and len(pipe) == 4 and pipe[:3] == ("V", "iter", "enumerate")
         # destination = the builder's whole array
@@ -154,6 +156,73 @@ def check_generate(ctx, cfg, key, boxed):
     return 1
 
 
+def builder_array_ptrs(an, cs, owners):
+    out = []
+    for i in range(len(an.locals)):
+        if local_adt(an, i) in owners:
+            o = owners[local_adt(an, i)]
+            whole = cs.mem.get((("local", i), ()))
+            arrp = whole[2][o["array"]] if whole is not None and whole[0] == "A" else None
+            if arrp is not None and arrp[0] == "P":
+                out.append(arrp)
+    return out
+
+
+def generate_loop_form(an, owners, N):
+    """generate written as an explicit loop: `for (i, dst) in iter_mut(whole builder array).enumerate() { dst.write(f(i)); .. }`."""
+    from ..loops import find_loops
+    lps = [lp for lp in find_loops(an) if lp.slot_ptrs()]
+    if len(lps) != 1:
+        return False, "neither one for_each nor one loop over the destination found (loops over storage: %d)" % len(lps)
+    lp = lps[0]
+    pipe = lp.pipe
+    shape = isinstance(pipe, tuple) and len(pipe) == 4 and pipe[:3] == ("V", "iter", "enumerate") and not lp.backward
+    arr_ok = shape and any(full_slice(an, lp.nxt.facts, pipe[3], N, lambda bse, a_=arrp: bse == a_[1]) and pipe[3][4] is True for arrp in builder_array_ptrs(an, lp.nxt, owners))
+    fcalls = [c for c in lp.calls() if c.fn == "core::ops::FnMut::call_mut"]
+    once = lp.count_on_paths(lambda c: c.fn == "core::ops::FnMut::call_mut") == {1}
+    idx = lp.index_val()
+    args_ok = len(fcalls) == 1 and idx is not None and fcalls[0].args[1] == ("A", "tuple", (idx,))
+    ws = [c for c in lp.calls() if c.fn in ("core::mem::MaybeUninit::<T>::write", "core::ptr::write")]
+    slots = lp.slot_ptrs()
+    w_ok = len(ws) == 1 and len(fcalls) == 1 and ws[0].args[1] == fcalls[0].ret and len(slots) == 1 and ws[0].args[0][:3] == slots[0][:3] and lp.count_on_paths(lambda c: c in ws) == {1}
+    exits = not lp.breaks
+    ok = shape and arr_ok and once and args_ok and w_ok and exits and not bad_adaptors(pipe)
+    return ok, ("loop over enumerate(iter_mut over the builder's whole array [0, N)): %s/%s; left only when next() returns None: %s; each step calls F exactly once: %s, with the enumerate index: %s, and writes the result into the paired slot: %s; no reordering adaptor: %s"
+                % (shape, arr_ok, exits, once, args_ok, w_ok, not bad_adaptors(pipe)))
+
+
+def fold_loop_form(an, owners, N, self_val, init_val):
+    """fold written as an explicit loop over the consumer's whole array: acc = init; for src in iter { acc = f(acc, read(src)); } acc"""
+    from ..loops import find_loops
+    from ..absint import State
+    lps = [lp for lp in find_loops(an) if lp.slot_ptrs()]
+    if len(lps) != 1:
+        return False, "neither a fold nor one loop over the source found (loops over storage: %d)" % len(lps)
+    lp = lps[0]
+    src_ok = not lp.backward and full_slice(an, lp.nxt.facts, lp.pipe, N, consumer_array_base(an, lp.nxt, owners)(self_val))
+    fcalls = [c for c in lp.calls() if c.fn == "core::ops::FnMut::call_mut"]
+    once = lp.count_on_paths(lambda c: c.fn == "core::ops::FnMut::call_mut") == {1}
+    slots = lp.slot_ptrs()
+    rs = [c for c in lp.calls() if c.fn == "core::ptr::read" and len(slots) == 1 and c.args[0][:3] == slots[0][:3]]
+    ok_args = acc_ok = ret_ok = init_ok = False
+    if len(fcalls) == 1 and len(rs) == 1 and lp.count_on_paths(lambda c: c in rs) == {1}:
+        fc = fcalls[0]
+        # the accumulator: the local cell that receives f's result in the step
+        accs = [s_ for s_ in an.assigns if s_["site"][0] in lp.blocks | {fc.bb} and s_["val"] == fc.ret and s_["cell"][0][0] == "local"]
+        dest = (("local", fc.term["dest"]["l"]), ()) if not fc.term["dest"]["p"] else None
+        cells = {s_["cell"] for s_ in accs} | ({dest} if dest else set())
+        head = State(lp.nxt.mem, lp.nxt.facts)
+        for cell in cells:
+            at_head = an.read_cell(head, cell[0], cell[1], None)
+            if fc.args[1] == ("A", "tuple", (at_head, rs[0].ret)):
+                ok_args = acc_ok = True
+                ret_ok = bool(an.returns) and all(r["val"] == at_head for r in an.returns)
+                init_ok = any(s_["cell"] == cell and s_["val"] == init_val and an.dominates(s_["site"][0], lp.nxt.bb) for s_ in an.assigns)
+    ok = src_ok and once and ok_args and acc_ok and ret_ok and init_ok and not lp.breaks and not bad_adaptors(lp.pipe)
+    return ok, ("loop over the whole source array (forward): %s; left only when next() returns None: %s; each step calls f exactly once: %s with (accumulator, read(slot)): %s; accumulator starts as init: %s and is what is returned: %s"
+                % (src_ok, not lp.breaks, once, ok_args, init_ok, ret_ok))
+
+
 def consumer_array_base(an, cs, owners):
     """Predicate: base is the array field of an ArrayConsumer local whose array value is `val`."""
     def mk(val):
@@ -179,7 +248,10 @@ def check_map_fold(ctx, cfg):
     n = 0
     # map: every from_iter pipeline in the body (one per branch, if the body branches on needs_drop) must match
     key = FS + "map"
-    b = ctx.body(cfg, key, rule)
+    b = db.get(key)
+    if b is None:
+        ctx.ob(rule, key, db.get("trait FunctionalSequence::map") is not None, "no override for the owned receiver: the trait-default map (C08.R) runs over into_iter(self), the by-value iterator (C06)", cfg=cfg)
+        n += 1
     if b is not None:
         an = ctx.analysis(cfg, key)
         N = an.tenv.length(adt_args(b["impl_self"])[1])
@@ -204,13 +276,21 @@ def check_map_fold(ctx, cfg):
         ctx.ob(rule, key, ok, "; ".join(dets) if dets else "no from_iter pipeline found", at=b["at"], cfg=cfg)
         n += 1
     key = FS + "fold"
-    b = ctx.body(cfg, key, rule)
+    b = db.get(key)
+    if b is None:
+        ctx.ob(rule, key, db.get("trait FunctionalSequence::fold") is not None, "no override for the owned receiver: the trait-default fold (C08.R) runs over into_iter(self), the by-value iterator (C06)", cfg=cfg)
+        n += 1
     if b is not None:
         an = ctx.analysis(cfg, key)
         N = an.tenv.length(adt_args(b["impl_self"])[1])
         fo = [c for c in an.calls if c.fn.startswith("core::iter::") and c.fn.split("::")[-1] in ("fold", "rfold", "try_fold", "try_rfold", "for_each", "reduce")]
         ok = len(fo) >= 1
         dets = []
+        if not fo:
+            ok, d0 = fold_loop_form(an, owners, N, ("V", "arg", 1), ("V", "arg", 2))
+            dets.append(d0)
+            ctx.ob(rule, key, ok, d0, at=b["at"], cfg=cfg)
+            return n + 1
         for f in fo:
             if f.fn != "core::iter::Iterator::fold":
                 ok = False
@@ -248,7 +328,8 @@ def check_zip_body(ctx, cfg, key, branches):
     # length parameter of Self
     st = b.get("impl_self")
     N = an.tenv.length(adt_args(st)[1]) if st is not None and is_ga(st) else None
-    ok_all = len(fis) == len(branches)
+    # one pipeline per branch of the body (a body may branch on needs_drop): every pipeline found must match its specification
+    ok_all = 1 <= len(fis) <= len(branches)
     dets = []
     for fi, (left, right, argspec) in zip(fis, branches):
         pipe = fi.args[0]
@@ -443,7 +524,7 @@ def check(ctx):
             (("into_iter", A2), ("value", A1), [("val", 0), ("val", 1)]),    # f(lhs item, self item)
         ])
         n += check_dispatch(ctx, cfg)
-        ctx.floor("C08", "generate/map/fold/zip bodies (%s)" % cfg, n, 9 if cfg == "F0" else 10)
+        ctx.floor("C08", "generate/map/fold/zip bodies (%s)" % cfg, n, 7)
         r = check_receivers(ctx, cfg)
         ctx.floor("C08.R", "receiver-form obligations (%s)" % cfg, r, 8)
         check_default_clone(ctx, cfg)
